@@ -487,7 +487,7 @@ void run_begin(const Case& c, const std::vector<uint32_t>* measured_len) {
   g.brng = stream(c.seed, S_BUGGIFY);
   g.len.clear();
   if (measured_len) g.len = *measured_len;
-  const size_t nthreads = c.threads.size();
+  const size_t nthreads = std::max<size_t>(c.threads.size(), static_cast<size_t>(c.knob("sim_threads", 0)));
   auto len_of = [&](int id) -> uint32_t {
     uint32_t l = (static_cast<size_t>(id) < g.len.size()) ? g.len[static_cast<size_t>(id)] : 0;
     return l > 0 ? l : 200;
@@ -757,7 +757,7 @@ int __wrap_pthread_mutex_lock(pthread_mutex_t* m) {
       g.mutex_owner[m] = st->id;
       return __real_pthread_mutex_lock(m);
     }
-    if (it->second == st->id) sim::die("harness", "recursive lock of a non-recursive mutex");
+    if (it->second == st->id) sim::die("mutex-left-locked", "a thread locks a mutex it already owns: an earlier call returned or threw with the lock held");
     st->state = sim::SimThread::BLOCKED_MUTEX;
     st->blocked_on = m;
     g.stats.mutex_blocks++;
